@@ -182,8 +182,13 @@ class TriggerHandler:
     def __actions_for_location(self, event, file, line, function, frame):
         actions = []
         for trigger in self._tp_config:
-            if trigger.at_location(event, file, line, function, frame):
-                actions += trigger.actions
+            try:
+                if trigger.at_location(event, file, line, function, frame):
+                    actions += trigger.actions
+            except Exception:
+                # e.g. a method tracepoint without a method name needs the source of the frame, which can be missing;
+                # one trigger we cannot place must not stop the other triggers from acting
+                logging.debug("Cannot check location of trigger %s", trigger, exc_info=True)
         return actions
 
     def __process_call_backs(self, ctx: 'TriggerContext', arg: any, frame: FrameType, event: str, file: str, line: int,
